@@ -2,7 +2,7 @@
 # try_mutant.sh <ID> <patch.diff> [tier]: apply to /repo, run the check, revert
 id=$1; patch=$2; tier=${3:-quick}
 cd /repo && git apply $patch || { echo "PATCH DOES NOT APPLY to /repo"; exit 2; }
-cd /verif && timeout 3000 ./bin/vf check $id --tier $tier > .work/mut-$id.log 2>&1; rc=$?
+cd /verif && VERIF_EVIDENCE_DIR=/verif/.work/evidence-mut timeout 3000 ./bin/vf check $id --tier $tier > .work/mut-$id.log 2>&1; rc=$?
 git -C /repo checkout -- . ; git -C /repo status --short | head -3
 grep -E "^(VIOLATION|INCONCLUSIVE|KNOWN-FINDING)" .work/mut-$id.log | cut -c1-300 | head -8
 echo "mutant $id rc=$rc: $(tail -1 .work/mut-$id.log | cut -c1-150)"
